@@ -22,6 +22,7 @@ IntT(n)        == T("int", "", n, 0, <<>>, <<>>)
 IntE(n, e)     == T("int", "", n, e, <<>>, <<>>)
 (* n * 2^e + 1 / - 1: the neighbours of a large power of two (comparisons only; arithmetic on them is "out") *)
 IntA(n, e, adj) == T("int", IF adj = 1 THEN "+1" ELSE "-1", n, e, <<>>, <<>>)
+FltA(n, e, adj) == T("flt", IF adj = 1 THEN "+1" ELSE "-1", n, e, <<>>, <<>>)      \* the float n * 2^e +- 1 (an f64 only below 2^53)
 Flt(n, e)      == T("flt", "", n, e, <<>>, <<>>)
 FltS(tag)      == T("flt", tag, 0, 0, <<>>, <<>>)
 Var(id, name)  == T("var", name, id, 0, <<>>, <<>>)
